@@ -81,6 +81,18 @@ pub fn scale_family(with_long_names: bool) -> ListSpace {
         f.push(method(Some((2, 2)), None, "other", "", Orig::None, "k"));
         files.push((f, Term::Lf));
     }
+    // (e) one obfuscated method name with M entries whose single-line ranges come in DESCENDING order, and one in
+    //     a zig-zag order (nothing in the format promises ascending start lines)
+    for &m in &[33usize, 129, 401, 450, 1000] {
+        for zig in [false, true] {
+            let mut f = vec![class("s.Desc", "desc")];
+            for i in 0..m {
+                let k = if zig { if i % 2 == 0 { i / 2 } else { m - 1 - i / 2 } } else { m - 1 - i } as u64;
+                f.push(method(Some((k + 1, k + 1)), None, leak(&format!("o{}", k)), "", Orig::S(1000 + k), "d"));
+            }
+            files.push((f, Term::Lf));
+        }
+    }
     // (d) long names in every role (LEB128 prefix lengths 1/2/3; 1 KiB and 64 KiB thresholds)
     if with_long_names {
         for &l in &NAME_LENGTHS {
@@ -108,6 +120,7 @@ pub fn scale_family(with_long_names: bool) -> ListSpace {
         note: format!("one class with N in {:?} entries (shuffled names, inline groups of 3, same-(name,args) entries with different originals); N in {:?} class lines in shuffled order with re-declared names; inline depth K in {:?}; names of {:?} bytes in every role", SIZES_ENTRIES, SIZES_CLASSES, INLINE_DEPTHS, if with_long_names { &NAME_LENGTHS[..] } else { &[][..] }),
         files,
         wide: false,
+        chunk: Default::default(),
     }
 }
 
@@ -186,11 +199,19 @@ pub fn unicode_family() -> ListSpace {
             ));
         }
     }
+    // (d) obfuscated class names inside well-known package prefixes (nothing exempts them from remapping)
+    for (obf, obf2) in [("java.util.a", "javax.inject.b"), ("android.app.c", "kotlin.d"), ("sun.misc.e", "com.android.f"), ("java.lang.String", "java.lang.Object")] {
+        files.push((
+            vec![class("com.example.ShimOne", obf), method(Some((1, 2)), None, "one", obf2, Orig::SE(3, 4), "m"), class("com.example.ShimTwo", obf2), Line::SourceFile("Shim.kt"), method(None, Some("com.example.ShimOne"), "two", "", Orig::None, "m")],
+            Term::Lf,
+        ));
+    }
     ListSpace {
         name: "MS-U character-class family".into(),
         note: "every one of 105 special characters (all 64 UTF-8 continuation bytes as second byte, one character per lead-byte class incl. U+0085 U+00A0 U+2028 U+3000 U+FF21 U+10000 U+20000 U+10FFFF, ASCII punctuation incl. / \\ $ ; @ \") inside class / method / argument / sourceFile names; every ordered pair and triple of a 14-character pool whose byte order, UTF-16 order and code-point order differ, as class names and as method names; 9 class-name shapes for the synthetic-file rule ('$' before '.', leading / trailing '$' or '.')".into(),
         files,
         wide: false,
+        chunk: Default::default(),
     }
 }
 
@@ -230,6 +251,7 @@ pub fn relation_family() -> ListSpace {
         note: "one class; entries over obfuscated {a, aa, ab} x original {a, b, ab, ba} x arguments {'', a, b}: all sequences of <= 2 entries, and <= 3 over the sub-alphabet without arguments (names that are prefixes / suffixes / concatenations of each other)".into(),
         files,
         wide: false,
+        chunk: Default::default(),
     }
 }
 
@@ -246,6 +268,19 @@ pub fn huge_family(giant_methods: usize) -> ListSpace {
         }
         files.push((f, Term::Lf));
     }
+    // more distinct signatures than any plausible cap on a de-duplication set (4096, 8192, 65536), then repeats of
+    // the earliest ones (which a capped set may have forgotten)
+    for cap in [4100usize, 8200, 66000] {
+        let mut f = Vec::with_capacity(cap + 400);
+        f.push(class("o.Capped", "k"));
+        for i in 0..cap {
+            f.push(method(None, None, leak(&format!("orig{}", i)), "", Orig::None, leak(&format!("m{}", i))));
+        }
+        for i in 0..300 {
+            f.push(method(None, None, leak(&format!("orig{}", i)), "", Orig::None, leak(&format!("m{}", i))));
+        }
+        files.push((f, Term::Lf));
+    }
     if with_giant_class {
         // ~ 2^32 pairs of distinct methods: a 32-bit fingerprint used as identity collides somewhere
         let m = giant_methods;
@@ -256,7 +291,7 @@ pub fn huge_family(giant_methods: usize) -> ListSpace {
         }
         files.push((f, Term::Lf));
     }
-    ListSpace { name: "MS-H huge-count family".into(), note: "N in {147, 300, 2340, 2341, 4682, 9363} classes with one entry each (class table crossing 4 KiB and 64 KiB block sizes); optionally one class with 150000 (quick) / 400000 (thorough) distinct methods".into(), files, wide: false }
+    ListSpace { name: "MS-H huge-count family".into(), note: "N in {147, 300, 2340, 2341, 4682, 9363} classes with one entry each (class table crossing 4 KiB and 64 KiB block sizes); one class with 4100 / 8200 / 66000 distinct methods followed by repeats of the first 300; optionally one class with 150000 (quick) / 400000 (thorough) distinct methods".into(), files, wide: false, chunk: Default::default() }
 }
 
 // ---------------------------------------------------------------------------------------------
@@ -370,5 +405,40 @@ pub fn collision_family() -> ListSpace {
             ));
         }
     }
-    ListSpace { name: "MS-X fingerprint-collision family".into(), note: "pairs of class names that collide under ten common 32-bit fingerprints (DefaultHasher low/high half over str and bytes, FNV-1a 64 truncated / folded, FNV-1a 32, djb2, Java hashCode, CRC-32), found by a birthday search over o.k<hex>; each pair as two classes, both orders".into(), files, wide: false }
+    ListSpace { name: "MS-X fingerprint-collision family".into(), note: "pairs of class names that collide under ten common 32-bit fingerprints (DefaultHasher low/high half over str and bytes, FNV-1a 64 truncated / folded, FNV-1a 32, djb2, Java hashCode, CRC-32), found by a birthday search over o.k<hex>; each pair as two classes, both orders".into(), files, wide: false, chunk: Default::default() }
+}
+
+/// MS-G giant strings: names whose LEB128 length prefix needs 4 bytes (>= 2^21 bytes)
+pub fn giant_family() -> ListSpace {
+    let mut files = Vec::new();
+    for l in [(1usize << 21) - 1, 1 << 21, (1 << 21) + 1] {
+        let a = leak(&"g".repeat(l));
+        let b = leak(&format!("{}h", "g".repeat(l - 1)));
+        files.push((vec![class("s.Before", "a"), method(None, None, "p", "", Orig::None, "m"), class(b, a), method(Some((1, 2)), None, a, "", Orig::SE(3, 4), b), class("s.After", "k.x"), method(None, None, "r", "", Orig::None, "m")], Term::Lf));
+    }
+    ListSpace { name: "MS-G giant strings".into(), note: "class / method names of 2^21-1, 2^21 and 2^21+1 bytes (4-byte LEB128 length prefix)".into(), files, wide: false, chunk: Default::default() }
+}
+
+/// MS-L alignment family: tokens of >= 32 bytes whose first bytes are not UTF-8 (a word-at-a-time fast path that
+/// skips the unaligned head of a token would accept or reject them depending on the buffer address)
+pub fn alignment_family() -> ListSpace {
+    let mut files = Vec::new();
+    for head in 1..=7usize {
+        let mut bad: Vec<u8> = vec![0xff; head];
+        bad.extend(std::iter::repeat(b'q').take(40));
+        let mut l1 = bad.clone();
+        l1.extend_from_slice(b" -> b:");
+        let mut l2 = b"    int ".to_vec();
+        l2.extend_from_slice(&bad);
+        l2.extend_from_slice(b" -> c");
+        let mut l3 = b"    1:2:void ".to_vec();
+        l3.extend_from_slice(&bad);
+        l3.extend_from_slice(b"() -> d");
+        for pad in 0..8usize {
+            // `pad` bytes of header in front shift every later token by one more address residue
+            let hdr = leak_bytes(format!("#{}", "x".repeat(pad)).as_bytes());
+            files.push((vec![Line::Noise(hdr), class("p.A", "a"), Line::Noise(leak_bytes(&l1)), method(None, None, "p", "", Orig::None, "m"), Line::Noise(leak_bytes(&l2)), Line::Noise(leak_bytes(&l3)), class("p.B", "b")], Term::Lf));
+        }
+    }
+    ListSpace { name: "MS-L alignment family".into(), note: "class / field / method lines whose 41..47-byte name starts with 1..7 bytes that are not UTF-8, behind headers of 1..8 bytes (every address residue modulo 8)".into(), files, wide: false, chunk: Default::default() }
 }
